@@ -1,9 +1,11 @@
 import TaffyVerif.Drv.C02
+import TaffyVerif.Drv.C13
 import TaffyVerif.Drv.C18
 import TaffyVerif.Drv.C15
 
 def handlers : List (String × Handler) := [
   ("C02", DrvC02.handler),
+  ("C13", DrvC13.handler),
   ("C18", DrvC18.handler),
   ("C15", DrvC15.handler)
 ]
